@@ -196,13 +196,22 @@ static void mask_names (const Fmt *f, unsigned char *b, sf_count_t len)
 {	if ((f->format & SF_FORMAT_TYPEMASK) == SF_FORMAT_MPC2K && len > 19) memset (b + 2, ' ', 17) ;
 }
 
+static int c14_rich ;	/* the write calls come with metadata in front of and behind the audio and a header update in the middle */
+
 static int do_writes (SNDFILE *sf, int ch, long N, int rdwr)
 {	short buf [64] ; long done = 0 ; int ok = 1 ;
+	if (c14_rich)
+	{	SF_CHUNK_INFO ci ; char d [12] = "chunkdata.." ;
+		INLIB (sf_set_string (sf, SF_STR_TITLE, "route test title")) ; INLIB (sf_set_string (sf, SF_STR_COMMENT, "early comment")) ;
+		memset (&ci, 0, sizeof (ci)) ; snprintf (ci.id, sizeof (ci.id), "ck00") ; ci.id_size = 4 ; ci.datalen = 11 ; ci.data = d ; INLIB (sf_set_chunk (sf, &ci)) ;
+		}
 	while (done < N)
 	{	long k = N - done > 16 ? 16 : N - done ;
 		for (long i = 0 ; i < k * ch ; i++) buf [i] = (short) ((((done * ch + i) * 41) % 1999 - 999) * 16) ;
 		ok &= vl_write (sf, T_SHORT, 1, buf, k) == k ; done += k ;
+		if (c14_rich && done == k) INLIB (sf_command (sf, SFC_UPDATE_HEADER_NOW, NULL, 0)) ;
 		}
+	if (c14_rich) { INLIB (sf_set_string (sf, SF_STR_COMMENT, "a comment set behind the audio")) ; INLIB (sf_set_string (sf, SF_STR_ARTIST, "late artist")) ; }
 	if (rdwr)
 	{	sf_count_t r ; INLIB (r = sf_seek (sf, 1, SEEK_SET | SFM_READ)) ; ok &= (r == 1) ; ok &= vl_read (sf, T_SHORT, 1, buf, 2) == 2 ;
 		INLIB (r = sf_seek (sf, 2, SEEK_SET | SFM_WRITE)) ; for (int i = 0 ; i < 3 * ch ; i++) buf [i] = (short) (1000 + i) ; ok &= vl_write (sf, T_SHORT, 1, buf, 3) == 3 ;
@@ -212,7 +221,7 @@ static int do_writes (SNDFILE *sf, int ch, long N, int rdwr)
 
 static void write_case (const Fmt *f, int ch, long N, int mode)
 {	unsigned char *ref = NULL ; sf_count_t reflen = 0 ; char rs [64] ; int rdwr = mode == SFM_RDWR, ref_ok = 1 ; uint64_t oh = VL_H0 ;
-	snprintf (rs, sizeof (rs), "%s|%s", rdwr ? "rdwr" : "write", major_name (f->format)) ;
+	snprintf (rs, sizeof (rs), "%s|%s", rdwr ? "rdwr" : c14_rich ? "write-rich" : "write", major_name (f->format)) ;
 	for (int route = R_VIO ; route <= R_EMBED44 ; route++)
 	{	SF_INFO info ; SNDFILE *sf = NULL ; int fd = -1, rc = 0, ok = 0 ; char path [460] = "" ; unsigned char *got = NULL ; sf_count_t gotlen = 0 ; int is_embed = route >= R_EMBED1 ;
 		if (route == R_EMBED1 && (rdwr || (f->format & SF_FORMAT_TYPEMASK) == SF_FORMAT_RAW)) continue ;
@@ -331,6 +340,7 @@ void harness_run (void)
 					if (vl_case ("C14 read fmt=%s ch=%d N=%ld variant=%d", f->name, ch, N, variant)) { vl_root_count (f->name) ; read_case (f, ch, N, variant) ; }
 				if (vl_case ("C14 write fmt=%s ch=%d N=%ld", f->name, ch, N)) { vl_root_count (f->name) ; write_case (f, ch, N, SFM_WRITE) ; }
 				if (ni && f->gran && vl_case ("C14 rdwr fmt=%s ch=%d N=%ld", f->name, ch, N)) { vl_root_count (f->name) ; write_case (f, ch, N, SFM_RDWR) ; }
+				if (ni && vl_case ("C14 write-rich fmt=%s ch=%d N=%ld", f->name, ch, N)) { vl_root_count (f->name) ; c14_rich = 1 ; write_case (f, ch, N, SFM_WRITE) ; c14_rich = 0 ; }
 				}
 			}
 		}
